@@ -120,6 +120,48 @@ def Rx.trace (A : Aead) : Rx → List Bytes → List Bytes
   | _, [] => []
   | r, c :: cs => let (r1, o1) := r.recv A c; o1 :: Rx.trace A r1 cs
 
+/-! ### the receive path next to delayed responses -/
+
+/-- What one secured `HAPServerProtocol` goes through as far as its receive side could care: a read
+    (`data_received`), or the "a delayed response is pending" flag changing (`self.response` is set by
+    `_process_response` when the handler returns a task — a camera snapshot — and cleared by
+    `_handle_response_ready` when the task is done). -/
+inductive Ev where
+  | read (chunk : Bytes)
+  | pending (b : Bool)
+deriving Repr
+
+/-- receive state plus the pending flag -/
+structure PConn where
+  rx : Rx := {}
+  pending : Bool := false
+deriving Repr
+
+/-- `data_received` does not consult `self.response`: a read is appended, drained and handed over (or closes
+    the connection) in exactly the same way whether or not a delayed response is pending; what the HTTP
+    layer then does with a pipelined request is the HTTP layer's business (h11 is handed the bytes). -/
+def PConn.step (A : Aead) (c : PConn) : Ev → PConn × Option Bytes
+  | .read chunk => let (r, o) := c.rx.recv A chunk; ({ c with rx := r }, some o)
+  | .pending b => ({ c with pending := b }, none)
+
+def PConn.run (A : Aead) : PConn → List Ev → PConn
+  | c, [] => c
+  | c, e :: es => PConn.run A (c.step A e).1 es
+
+/-- what each READ event handed to the HTTP layer (flag changes hand over nothing and are skipped) -/
+def PConn.trace (A : Aead) : PConn → List Ev → List Bytes
+  | _, [] => []
+  | c, e :: es =>
+    match c.step A e with
+    | (c1, some o) => o :: PConn.trace A c1 es
+    | (c1, none) => PConn.trace A c1 es
+
+/-- the reads among the events -/
+def readsOf : List Ev → List Bytes
+  | [] => []
+  | .read c :: es => c :: readsOf es
+  | .pending _ :: es => readsOf es
+
 /-! ### send side -/
 
 /-- one frame on the wire: LE16 length ‖ AEAD(counter, aad = LE16 length, payload) -/
